@@ -183,7 +183,8 @@ def gen_retry_spec(rng: random.Random) -> dict:
     wait = rng.choice([0, 0, 2, 5])
     pol = rng.choice([{"kind": "attempts", "n": rng.randint(1, 4), "wait": wait},
                       {"kind": "chain", "n": rng.randint(2, 5), "waits": [3, 1, 2]},
-                      {"kind": "legacy", "n": rng.randint(1, 3), "wait": rng.choice([0, 1])}, None])
+                      {"kind": "legacy", "n": rng.randint(1, 3), "wait": rng.choice([0, 1])},
+                      {"kind": "delay", "d": rng.choice([2, 5, 7]), "wait": rng.choice([1, 2, 3])}, None])
     worker = {"name": "s02", "accepts": [5], "nw": rng.randint(1, 3), "retry": pol,
               "script": ([["gate"]] if rng.random() < 0.4 else []) +
                         [rng.choice([["fail_until", n_fail, rng.randint(1, 9)], ["fail_always", rng.randint(1, 9)],
